@@ -64,7 +64,8 @@ def _case(draw, tier):
         ndd = draw(st.sampled_from([len(base) + 1, len(base) + 1, 2, len(base) + 3, 1]))
         dd = ["DefaultDirection"] + draw(st.lists(token, min_size=ndd - 1, max_size=ndd - 1))
     return {"kind": "pin", "base": base, "pos": pos, "rows": rows, "dd": dd, "final_newline": draw(st.booleans()),
-            "sep_protein": draw(st.sampled_from([":", ":", ";", "|", ","]))}
+            "sep_protein": draw(st.sampled_from([":", ":", ";", "|", ","])),
+            "sep_column": draw(st.sampled_from(["\t", "\t", "\t", "\x1f"]))}
 
 
 def strategy(tier):
@@ -72,6 +73,15 @@ def strategy(tier):
 
 
 def render(case):
+    text, exp = _render_tab(case)
+    sc = case.get("sep_column", "\t")
+    if sc != "\t":
+        text = text.replace("\t", sc)
+        exp = [e.replace("\t", sc) for e in exp]
+    return text, exp
+
+
+def _render_tab(case):
     base, pos = case["base"], case["pos"]
     header = base[:pos] + ["Proteins"] + base[pos:]
     lines = ["\t".join(header)]
@@ -108,10 +118,12 @@ def check(case):
     text, exp = render(case)
     out = StringIO()
     sp = case.get("sep_protein", ":")
+    scol = case.get("sep_column", "\t")
+    kw = {} if scol == "\t" else {"sep_column": scol}
     if sp == ":":
-        guarded(pt.pin_to_valid_tsv, StringIO(text), out, sig="pin_to_valid_tsv")
+        guarded(pt.pin_to_valid_tsv, StringIO(text), out, sig="pin_to_valid_tsv", **kw)
     else:
-        guarded(pt.pin_to_valid_tsv, StringIO(text), out, sep_protein=sp, sig="pin_to_valid_tsv")
+        guarded(pt.pin_to_valid_tsv, StringIO(text), out, sep_protein=sp, sig="pin_to_valid_tsv", **kw)
     got = out.getvalue()
     require(got.endswith("\n") or not got, "no-final-newline", "output does not end with a newline")
     glines = got.split("\n")[:-1]
@@ -119,14 +131,14 @@ def check(case):
     require(glines[0] == exp[0], "header-changed", f"{glines[0]!r} != {exp[0]!r}")
     for i, (g, e) in enumerate(zip(glines[1:], exp[1:])):
         require(g == e, "row-changed", f"PSM {i}: {g!r} != expected {e!r}")
-    valid_out = guarded(pt.is_valid_tsv, StringIO(got), sig="is_valid_tsv")
+    valid_out = guarded(pt.is_valid_tsv, StringIO(got), sig="is_valid_tsv", **kw)
     require(valid_out is True, "output-not-valid", "converted output is not recognised as a valid TSV")
     out2 = StringIO()
-    guarded(pt.pin_to_valid_tsv, StringIO(got), out2, sep_protein=sp, sig="pin_to_valid_tsv")
+    guarded(pt.pin_to_valid_tsv, StringIO(got), out2, sep_protein=sp, sig="pin_to_valid_tsv", **kw)
     require(out2.getvalue() == got, "not-idempotent", "converting the output again changes it")
     ncol = len(case["base"]) + 1
     exp_valid = case["dd"] is None and all(len(r["proteins"]) == 1 for r in case["rows"])
-    valid_in = guarded(pt.is_valid_tsv, StringIO(text), sig="is_valid_tsv")
+    valid_in = guarded(pt.is_valid_tsv, StringIO(text), sig="is_valid_tsv", **kw)
     require(valid_in == exp_valid, "validity-predicate",
             f"is_valid_tsv(input) = {valid_in}, expected {exp_valid} (DefaultDirection={bool(case['dd'])}, protein counts {[len(r['proteins']) for r in case['rows']]})")
     multi = any(len(r["proteins"]) >= 2 for r in case["rows"])
@@ -141,6 +153,8 @@ def check(case):
         classes.append("multi-protein")
     if sp != ":":
         classes.append("custom-protein-separator")
+    if scol != "\t":
+        classes.append("custom-column-separator")
     nontrivial = multi and (case["pos"] != len(case["base"]) or bool(case["dd"]) or not case["final_newline"])
     return {"nontrivial": nontrivial, "classes": classes, "counters": {"rows_checked": len(case["rows"])}}
 
